@@ -1,8 +1,10 @@
 package c08
 
 import (
+	"bufio"
 	"bytes"
 	"fmt"
+	"io"
 	"math/big"
 	"reflect"
 	"testing"
@@ -324,4 +326,102 @@ func TestNestedEdgeSizes(t *testing.T) {
 		}
 	}
 	stats.Count("nested_edge_size_inputs", int64(n))
+}
+
+type plainReader struct{ r io.Reader }
+
+func (p plainReader) Read(b []byte) (int, error) { return p.r.Read(b) }
+
+type oneByteReader struct{ r io.Reader }
+
+func (o oneByteReader) Read(b []byte) (int, error) {
+	if len(b) == 0 {
+		return 0, nil
+	}
+	return o.r.Read(b[:1])
+}
+
+// eofWithDataReader hands out its last bytes together with io.EOF (allowed by the io.Reader contract).
+type eofWithDataReader struct{ b []byte }
+
+func (e *eofWithDataReader) Read(p []byte) (int, error) {
+	n := copy(p, e.b)
+	e.b = e.b[n:]
+	if len(e.b) == 0 {
+		return n, io.EOF
+	}
+	return n, nil
+}
+
+// TestStreamEntryPoints: the decoder is also fed from readers (rlp.Decode / rlp.NewStream over buffers, buffered
+// readers, connections that deliver byte by byte, readers that return their last bytes together with io.EOF,
+// streams whose announced length is larger than what arrives). Through every such entry a complete canonical
+// encoding decodes to the value DecodeBytes gives, and a strict prefix of it (the input cut anywhere) is
+// refused with an error - never accepted with invented content.
+func TestStreamEntryPoints(t *testing.T) {
+	stats.Check(t, 1500, 20000, func(t *rapid.T) {
+		tr := genTree(4).Draw(t, "tree")
+		enc := ref.RLPEncode(tr)
+		readers := []struct {
+			name string
+			mk   func(b []byte) io.Reader
+		}{
+			{"bytes.Buffer", func(b []byte) io.Reader { return bytes.NewBuffer(append([]byte{}, b...)) }},
+			{"bufio.Reader", func(b []byte) io.Reader { return bufio.NewReader(bytes.NewReader(b)) }},
+			{"plain io.Reader", func(b []byte) io.Reader { return plainReader{bytes.NewReader(b)} }},
+			{"one byte at a time", func(b []byte) io.Reader { return oneByteReader{bytes.NewReader(b)} }},
+			{"last bytes with io.EOF", func(b []byte) io.Reader { return &eofWithDataReader{append([]byte{}, b...)} }},
+		}
+		rd := rapid.SampledFrom(readers).Draw(t, "reader")
+		via := rapid.SampledFrom([]string{"Decode", "NewStream(0)", "NewStream(len)", "NewStream(len+extra)"}).Draw(t, "via")
+		decode := func(b []byte, announced uint64) (interface{}, error, interface{}) {
+			var out interface{}
+			var err error
+			p := func() (p interface{}) {
+				defer func() { p = recover() }()
+				switch via {
+				case "Decode":
+					err = rlp.Decode(rd.mk(b), &out)
+				case "NewStream(0)":
+					err = rlp.NewStream(rd.mk(b), 0).Decode(&out)
+				default:
+					err = rlp.NewStream(rd.mk(b), announced).Decode(&out)
+				}
+				return nil
+			}()
+			return out, err, p
+		}
+		extra := uint64(rapid.SampledFrom([]int{1, 2, 100, 1 << 20}).Draw(t, "extra"))
+		announced := uint64(len(enc))
+		if via == "NewStream(len+extra)" {
+			announced += extra
+		}
+		out, err, p := decode(enc, announced)
+		if p != nil || err != nil {
+			t.Fatalf("%s over %s: complete canonical encoding %x not decoded: err=%v panic=%v", via, rd.name, enc, err, p)
+		}
+		if !fromIfc(out).Equal(tr) {
+			t.Fatalf("%s over %s: %x decoded to %s, want %s", via, rd.name, enc, fromIfc(out), tr)
+		}
+		cuts := 0
+		if len(enc) >= 2 {
+			for i, n := 0, rapid.IntRange(1, 4).Draw(t, "nCuts"); i < n; i++ {
+				cut := rapid.IntRange(1, len(enc)-1).Draw(t, "cut")
+				out, err, p := decode(enc[:cut], announced)
+				if p != nil {
+					t.Fatalf("%s over %s: input cut after %d of %d bytes: panic %v (%x)", via, rd.name, cut, len(enc), p, enc[:cut])
+				}
+				if err == nil {
+					t.Fatalf("%s over %s: the input %x is the encoding %x cut after %d of %d bytes, and was ACCEPTED as %s", via, rd.name, enc[:cut], enc, cut, len(enc), fromIfc(out))
+				}
+				cuts++
+			}
+		}
+		key := ""
+		if tr.Depth() >= 1 && len(enc) > 3 {
+			key = "stream|" + via + "|" + rd.name + "|" + string(enc)
+		}
+		stats.Case(key, "F_stream", "F_stream_via:"+via, "F_stream_reader:"+rd.name)
+		stats.Count("stream_truncations_refused", int64(cuts))
+	})
 }
